@@ -31,7 +31,6 @@ CFG = {
         "Swat4.C11.C11_main",
         "Swat4.C11.C11_from",
         "Swat4.C11.driver_write_refines",
-        "Swat4.C11.relI_iff",
         "Swat4.C11.relQ_iff",
         "Swat4.C11.relQ_find",
         "Swat4.C11.relI_unique",
@@ -53,6 +52,8 @@ CFG = {
         "Swat4.C11.C11_queue_from",
         "Swat4.C11.C11_queue_no_hung",
         "Swat4.C11.driver_queue_refines",
+        "Swat4.C11.update_refused",
+        "Swat4.C11.update_refused_machine",
     ],
     "shards": (4, 16),
     "nontrivial": _c11_nontrivial,
@@ -85,7 +86,8 @@ CFG = {
                 "ZRANGEBYSCORE / SINTER / SUNION + slice.Intersection / slice.Difference + 'no include criterion => all' + HMGET return, "
                 "without duplicates and up to order, exactly the records satisfying FilterSet.pred (all with-bits, no no-bit, refresh and "
                 "update time in half-open ranges, never-refreshed records fail every active bound); get_refines, count_refines, "
-                "countByStatus_refines; C11_main - by induction over any history of calls from the empty keyspace the model's results equal "
+                "countByStatus_refines; update_refused / update_refused_machine - an Update whose resolver refuses (stored version newer) returns the "
+                "stored record with no error and changes nothing, at both levels, as servers.go does (return existing, nil); C11_main - by induction over any history of calls from the empty keyspace the model's results equal "
                 "the specification's item by item; driver_write_refines - the driver's own call runner (Drv.runCall) has this property for writes. "
                 "The same is proved for the other two repositories via RelI (instances:items / updated vs AbsState.instances) and RelQ (probes:items / queue vs "
                 "AbsState.queue read as a finite map id -> item, nextId strictly above every stored id): insAdd_refines / insRemove_refines / insGet_refines / "
